@@ -53,6 +53,9 @@ GDEFS = (DEFS +
          "app = #<'t>['t, #'t -> 'int] { =[x, f] => x f },\n"
          "addone = #'int { [~, 1] __integer_add__ },\n"
          "pairsum = #<'t>[['int, 'int], 't] { .0 __integer_add__ },\n"
+         # bodies that use a value of variable type as if it were an int / a tuple
+         "addv = #<'t>'t { [~, 1] __integer_add__ },\n"
+         "addp = #<'t>['t, 't] { __integer_add__ },\n"
          )
 
 GMAKERS = MAKERS + [("box", "Box[1]"), ("box_or_other", "n mkb"), ("box_of_int_or_str", "Box[n mk]"),
@@ -66,6 +69,8 @@ GTEMPLATES = [
     ("unbox", "{V1} unbox", 1),
     ("app", "[{V1}, &addone] app", 1),
     ("pairsum", "[{V1}, {V2}] pairsum", 2),
+    ("addv", "{V1} addv", 1),
+    ("addp", "[{V1}, {V2}] addp", 2),
 ]
 
 GCONSUMERS = CONSUMERS + [("add", " ~> [~, 1] __integer_add__")]
